@@ -661,6 +661,216 @@ def op_dumpobj(t):
 
 
 # ----------------------------------------------------------------------------------------------------------
+# export independence: exports share nothing mutable, are not changed by editing an earlier export, and follow the
+# object's current state
+
+INDEP_PATHS = ["dict", "dictrel", "state", "model", "pickle", "guid"]
+
+
+def export_fn(path, kind):
+    """-> function object -> plain exported structure (or None when the path does not exist for the class)"""
+    L = lib()
+    if path == "dict":
+        return lambda x: x.to_dict()
+    if path == "dictrel":
+        return lambda x: x.to_dict(chromosome_relative_coordinates=False)
+    if path == "state":
+        return (lambda x: x.__getstate__()) if kind == "ac" else None
+    if path == "model":
+        if kind not in L["MODEL"]:
+            return None
+        M = L["MODEL"][kind][0]
+        return lambda x: M.Schema().dump(M.Schema().load(x.to_dict()))
+    if path == "pickle":
+        return (lambda x: pickle.loads(pickle.dumps(x)).to_dict(export_parent=True)) if kind == "ac" else None
+    if path == "guid":
+        return lambda x: guid_tree(kind, x)
+    raise KeyError(path)
+
+
+def containers(v, key="", out=None):
+    """id -> last dictionary key on the way, of every mutable container (dict / list / set) in an exported structure"""
+    out = {} if out is None else out
+    if isinstance(v, dict):
+        out[id(v)] = key
+        for k, x in v.items():
+            containers(x, str(k), out)
+    elif isinstance(v, (list, set)):
+        out[id(v)] = key
+        for x in v:
+            containers(x, key, out)
+    elif isinstance(v, tuple):
+        for x in v:
+            containers(x, key, out)
+    return out
+
+
+def deep_mutate(v):
+    """edit an exported structure in place as a caller might: a value appended to every list, a key added to every
+    dict, scalars replaced"""
+    def scalar(x):
+        if x is None:
+            return "edited"
+        if isinstance(x, bool):
+            return not x
+        if isinstance(x, int):
+            return x + 1
+        if isinstance(x, str):
+            return x + "~"
+        if isinstance(x, uuid.UUID):
+            return uuid.UUID(int=(x.int + 1) % (1 << 128))
+        return x
+    if isinstance(v, dict):
+        for k in list(v):
+            if isinstance(v[k], (dict, list, set)):
+                deep_mutate(v[k])
+            else:
+                v[k] = scalar(v[k])
+        v["__edited__"] = ["x"]
+    elif isinstance(v, list):
+        for i, x in enumerate(v):
+            if isinstance(x, (dict, list, set)):
+                deep_mutate(x)
+            else:
+                v[i] = scalar(x)
+        v.append("edited" if not v or isinstance(v[0], str) else 99991)
+    elif isinstance(v, set):
+        v.add("edited")
+
+
+def diff_keys(a, b, key="", out=None):
+    """last dictionary keys under which two exported structures differ"""
+    out = set() if out is None else out
+    if isinstance(a, dict) and isinstance(b, dict):
+        for k in set(a) | set(b):
+            if k not in a or k not in b:
+                out.add(str(k))
+            else:
+                diff_keys(a[k], b[k], str(k), out)
+    elif isinstance(a, (list, tuple)) and isinstance(b, (list, tuple)):
+        if len(a) != len(b):
+            out.add(key)
+        else:
+            for x, y in zip(a, b):
+                diff_keys(x, y, key, out)
+    elif a != b:
+        out.add(key)
+    return out
+
+
+def digest_of(v):
+    return hashlib.md5(enc_val(jd(v)).encode("utf-8", "surrogatepass")).hexdigest()[:16]
+
+
+def blank_guids(v):
+    """content identifiers are fixed at construction (documented); they are not part of the `current state` clause"""
+    if isinstance(v, dict):
+        return {k: (None if k in GUID_KEYS else blank_guids(x)) for k, x in v.items()}
+    if isinstance(v, (list, tuple)):
+        return [blank_guids(x) for x in v]
+    return v
+
+
+def mutate_quals_object(kind, x):
+    """the public mutable input: obj.qualifiers (dict of sets) of the object and of its first leaf"""
+    targets = [x]
+    for attr in ("transcripts", "feature_intervals", "variant_intervals", "genes", "feature_collections",
+                 "variant_collections"):
+        kids = getattr(x, attr, None)
+        if kids:
+            targets.append(kids[0])
+            break
+    for t in targets:
+        if t.qualifiers:
+            k = sorted(t.qualifiers, key=str)[0]
+            t.qualifiers[k].add("zz-added")
+        else:
+            t.qualifiers["zzkey"] = {"zz-added"}
+
+
+def mutate_quals_description(kind, d):
+    import copy
+    d = copy.deepcopy(d)
+    targets = [d]
+    for key in ("transcripts", "feature_intervals", "variant_intervals", "genes", "feature_collections",
+                "variant_collections"):
+        kids = d.get(key)
+        if kids:
+            if key == "variant_intervals":
+                kids = sorted(kids, key=lambda v: v["start"])     # the constructor orders variants by start
+            targets.append(kids[0])
+            break
+    for t in targets:
+        q = t.get("qualifiers")
+        if q:
+            k = sorted(q, key=str)[0]
+            q[k] = list(q[k]) + ["zz-added"]
+        else:
+            t["qualifiers"] = {"zzkey": ["zz-added"]}
+    return d
+
+
+def op_indep(t):
+    import copy
+    path, kind, pk, seed, profile = t.next(), t.next(), t.next(), t.int(), t.next()
+    L = lib()
+    fn = export_fn(path, kind)
+    if fn is None:
+        return "ok skip no-such-path"
+    d, ps = G8.describe(kind, pk, seed, profile)
+
+    def fresh(desc=d):
+        return G8.build(kind, desc, G8.make_parent(ps), L)
+    try:
+        x = fresh()
+        e1 = fn(x)
+    except Exception as e:  # noqa
+        return f"ok skip {type(e).__name__}"
+    # (i) two exports of one object share no mutable container
+    e2 = fn(x)
+    c1, c2 = containers(e1), containers(e2)
+    shared = sorted({c1[i] for i in c1 if i in c2})
+    # (ii) editing an earlier export does not change a later one
+    x = fresh()
+    g_before = guid_tree(kind, x)
+    e1 = fn(x)
+    keep = copy.deepcopy(e1)
+    deep_mutate(e1)
+    try:
+        e2 = fn(x)
+    except Exception as e:  # noqa
+        e2 = ["raised", type(e).__name__]
+    try:
+        g_after = guid_tree(kind, x)
+    except Exception as e:  # noqa
+        g_after = ["raised", type(e).__name__]
+    twin = fresh()
+    e_twin = fn(twin)
+    g_twin = guid_tree(kind, twin)
+    changed = sorted(diff_keys(keep, e2) | diff_keys(e_twin, e2))
+    # (iii) a later export follows the object's current state (qualifiers are a public mutable attribute)
+    if path == "guid":
+        cur = expect = None
+        stale = []
+    else:
+        x = fresh()
+        fn(x)
+        mutate_quals_object(kind, x)
+        try:
+            cur = blank_guids(fn(x))
+        except Exception as e:  # noqa
+            cur = ["raised", type(e).__name__]
+        expect = blank_guids(fn(fresh(mutate_quals_description(kind, d))))
+        stale = sorted(diff_keys(expect, cur))
+    return " ".join(["ok", f"shared {len(shared)}"] + [enc_str(k) for k in shared]
+                    + [f"changed {len(changed)}"] + [enc_str(k) for k in changed]
+                    + [f"stale {len(stale)}"] + [enc_str(k) for k in stale]
+                    + ["exports", digest_of(keep), digest_of(e2), digest_of(e_twin),
+                       "guids", digest_of(g_before), digest_of(g_after), digest_of(g_twin),
+                       "state", digest_of(cur), digest_of(expect)])
+
+
+# ----------------------------------------------------------------------------------------------------------
 # PYTHONHASHSEED sweep
 
 def sweep_items(seed0, count, profile):
@@ -719,7 +929,7 @@ def op_sweep(t):
 
 
 OPS = {"tokens": op_tokens, "tokeq": op_tokeq, "qexport": op_qexport, "vcollide": op_vcollide, "dictrt": op_dictrt,
-       "digest": op_digest, "digest2": op_digest2, "schema": op_schema, "schemafields": op_schemafields, "obj": op_obj, "sweep": op_sweep, "pickleleaf": op_pickleleaf, "dumpobj": op_dumpobj}
+       "digest": op_digest, "digest2": op_digest2, "schema": op_schema, "schemafields": op_schemafields, "obj": op_obj, "indep": op_indep, "sweep": op_sweep, "pickleleaf": op_pickleleaf, "dumpobj": op_dumpobj}
 
 
 def impl_serial_op(line):
